@@ -105,7 +105,7 @@ var seq int64
 // Run is one request through one entry point under one scenario.
 type Run struct {
 	Key, Res, ID string
-	Sc       Scenario
+	Sc           Scenario
 	// errBack: this framework hands the handler's error back to the middleware
 	ErrBack bool
 
@@ -115,7 +115,6 @@ type Run struct {
 	fallbacks, rejections   int
 	nilDeref                bool
 	otherPanic              interface{}
-	handlerPanicSeen        bool
 }
 
 // New prepares a run: a fresh resource name; a flow rule with threshold 0 when the request is to be blocked.
@@ -188,7 +187,6 @@ func (r *Run) Guard(f func()) {
 	defer func() {
 		if p := recover(); p != nil {
 			if p == PanicValue {
-				r.handlerPanicSeen = true
 				return
 			}
 			if re, ok := p.(runtime.Error); ok && strings.Contains(re.Error(), "nil pointer dereference") {
@@ -252,9 +250,6 @@ func (r *Run) Finish() {
 	}
 	if r.otherPanic != nil {
 		evs = append(evs, "otherPanic")
-	}
-	if r.Sc.Handler == "panic" && r.handlerRuns > 0 && !r.handlerPanicSeen && !r.nilDeref {
-		evs = append(evs, "panicSwallowed")
 	}
 	t := strings.Join(evs, ",")
 	if t == "" {
